@@ -65,6 +65,39 @@ CLAIMED = {
         "epilogue order (original unlinked only after check_NP24 returned normally with both flags), delete_NP24 guard, compress_NP24/NP21 through C02's compress_file incl. failures, early exits, init_params reset.",
    note="Histories are handled inductively (one guarded unlink of the original); interruptions = exceptions of external calls; real run histories on files (first/repeat/overwrite/corrupted split/NP2.1/NP1) are a bounded stand-in. Known finding F-C04-1 (partial folders).",
    tech="AST->z3 VC generation over a ghost file system, effect-log ordering obligations (deductive) + bounded histories"),
+ "C13": dict(cat="other", ref="DESIGN.md 4/C13",
+   text="extract_wfs_array proved with a loop invariant over the output stack for any number of spikes / channels / samples: wfs[i,c,t] == traces[neighbours[peak_i,c], sample_i - trough + t], padding neighbours read the NaN row, every read in bounds; "
+        "write_wfs_chunk: chunk-local offsets for chunk 0 and later chunks address samples [sample-trough, sample-trough+length) of the recording and rows land at waveform_index, with the caller's trough offset and length.",
+   note="Selection of <= max_wf spikes per unit, agreement of table / traces / channels / templates, chunk- and worker-count independence and the loader are a bounded stand-in on generated recordings (joblib threading back end). A-PANDAS; NaN is a token. Known finding F-C13-1 (spike at sample index 0).",
+   tech="AST->z3 VC generation with a stack loop invariant and index-function arrays (deductive) + bounded native stand-in"),
+ "C14": dict(cat="other", ref="DESIGN.md 4/C14",
+   text="pick_maximum: reported peak == global absolute extremum, first on ties; find_trough at/after the peak and find_tip strictly before it; recovery_point in bounds with last-sample fall-back; "
+        "lemmas: positive scaling and channel permutation leave the arg-max rule invariant - all for symbolic (n, C, T).",
+   note="A-NP-SPEC argmax / nanargmax / max; arr_pre_post by contract (checked exhaustively natively for T <= 9). Half-peak points, the weak-positive swap, batch independence and slopes: bounded stand-in on generated bi/tri-phasic spikes. Known finding F-C14-2.",
+   tech="AST->z3 VC generation with order-statistics specification axioms (deductive) + bounded native stand-in"),
+ "C18": dict(cat="other", ref="DESIGN.md 4/C18",
+   text="fourier.convolve: inverse transform asked for the padded length, 'same' = centred crop for both parities, 'full' length; ns_optim_fft exhaustive over its table; freduce/fexpand mutually inverse on Hermitian spectra for both parities and any axis; "
+        "fscale == DFT bin frequencies; lp + hp == 1, bp == hp*lp on the filter vectors; cosine taper monotone in [0,1]; filter broadcast along the requested axis.",
+   note="A-FFT (shapes, linearity; contents opaque), A-MATH (three facts about cos). Equality with direct convolution / FFT on the impulse basis is a bounded stand-in. Known findings F-C18-1 (ns_optim above its table), F-C18-3 (3-D, axis 0).",
+   tech="AST->z3 VC generation with FFT shape/Hermitian specification axioms (deductive) + bounded impulse-basis stand-in"),
+ "C05": dict(cat="other", ref="DESIGN.md 4/C05",
+   text="car: exactly one channel-axis reduction with the requested operator is subtracted, per-collection == per-group; kfilt/fk recursion over collections forwards every setting; destripe data-flow: high-pass -> fshift by +sample_shift along time -> interpolation -> "
+        "spatial filter on rows with label != 3, sync untouched; agc: out*gain == in on live channels, dead channels untouched.",
+   note="median/mean are opaque reductions with translation equivariance (A-NP-SPEC); butter/sosfiltfilt/fshift/convolve opaque with shapes (A-SCIPY/A-FFT). 40 dB stripe attenuation / 90 % spike retention are numeric: bounded stand-in on synthetic stripes.",
+   tech="AST->z3 VC generation with call-log data-flow obligations and modular recursion contracts (deductive) + bounded numeric stand-in"),
+ "C07": dict(cat="other", ref="DESIGN.md 4/C07",
+   text="fshift structure for 1-D / 2-D inputs along either axis with scalar and per-trace shifts: output shape and dtype, real input untouched, unit-delay ramp along the shift axis, inverse transform to the original length along the same axis, per-trace shifts vary along the other axis only.",
+   note="The shift theorem cannot be proved over an opaque transform: integer shift == roll, composition, band-limited fractional delay, call-history independence and delay estimation (wave_shift_corrmax, parabolic_max) are a bounded stand-in on the full impulse basis (linearity lifts it to all signals of a length).",
+   tech="AST->z3 VC generation with an FFT call log (deductive, structure) + bounded impulse-basis stand-in (numerics)"),
+ "C20": dict(cat="other", ref="DESIGN.md 4/C20",
+   text="rolling_window and smooth.lp keep the input length for every length / window / padding (Python's half-to-even round modelled); Venn peeling lemma: per bin, sorter j is counted in exactly c_j levels, so every spike is attributed once.",
+   note="Cadzow rank reduction, svd_denoise_npx, Savitzky-Golay and the spike-count conservation on real calls are numerics: bounded stand-in (exact frequency-domain plane waves, boundary spikes).",
+   tech="AST->z3 VC generation with integer rounding lemmas (deductive) + bounded native stand-in"),
+ "C15": dict(cat="other", ref="DESIGN.md 4/C15",
+   text="One symbolic iteration of interpolate_bad_channels' loop for an arbitrary dead/noisy channel on any geometry: only that row is written; weights are zeroed exactly on dead/noisy channels and below 0.005; sources are good or outside-brain channels with positive weight; "
+        "coefficients == weight / sum over the sources (convex); zeros when there is no source. detect_bad_channels recommendation tail: noisy iff, dead iff (unless noisy), outside-brain only within the low-coherence set reaching the last channel (induction lemma on the gap counter).",
+   note="Distance-decay values are opaque positive numbers (A-MATH); matmul opaque with exact operands. Detection of injected faults over the whole probe (both ends, gaps), the per-file mode, numeric range of the replacement: bounded stand-in. Known finding F-C15-2 (silent channel 0 never labelled).",
+   tech="AST->z3 VC generation, piecewise loop-body execution, hand-stated induction lemma (deductive) + bounded detection stand-in"),
 }
 NA = {
  "C19": "statistical recovery statement about a heuristic (cross-correlation + greedy matching); no contract over sync_timestamps decides it for all inputs - see DESIGN.md section 5",
